@@ -811,13 +811,20 @@ class FiniteRange(Domain):
             if self.log_scale:
                 int_value = np.log(int_value)
             sz = len(self._uniform_int)
-            return int(
+            x = int(
                 np.clip(
                     round((int_value - self._lower_internal) / self._step_internal),
                     0,
                     sz - 1,
                 )
             )
+            if self.cast_int:
+                # Rounding to ``int`` in ``_map_from_int`` can move a value closer to
+                # a neighbouring grid point (in internal space): pick the neighbour
+                # which maps back to ``value``
+                candidates = [z for z in (x, x - 1, x + 1) if 0 <= z < sz]
+                x = min(candidates, key=lambda z: abs(self._map_from_int(z) - value))
+            return x
 
     def cast(self, value):
         return self._values[self._map_to_int(value)]
